@@ -821,6 +821,9 @@ OPS = [
           "join", binary="right", unordered=True, noindex=True) for how in ("inner", "left", "right", "outer")],
     *[_op(f"merge_{how}_bcast", lambda t, how=how: _merge(t["L"], t["R"], on="b", how=how, broadcast=True, shuffle_method="tasks"),
           "join", binary="right", unordered=True, noindex=True) for how in ("inner", "left", "right")],
+    # a broadcast join with an npartitions hint below the partition count of the large side (D81)
+    *[_op(f"merge_{how}_bcast_np{n}", lambda t, how=how, n=n: _merge(t["L"], t["R"], on="b", how=how, broadcast=True, shuffle_method="tasks", npartitions=n),
+          "join", binary="right", unordered=True, noindex=True) for how in ("inner", "left", "right") for n in (1, 2)],
     _op("merge_disk", lambda t: _merge(t["L"], t["R"], on="b", how="inner", shuffle_method="disk", broadcast=False), "join",
         binary="right", unordered=True, noindex=True),
     _op("merge_left_on_right_on", lambda t: _merge(t["L"], t["R"].rename(columns={"b": "B"}), left_on="b", right_on="B", how="inner"),
